@@ -10,6 +10,7 @@ import random, re
 from .. import lang, vcrun, rx2smt as R
 from ..common import native, SEED
 from specs.build import B
+from ._groups import EXC
 
 LEVEL = "exploration"
 DIGITS = "0123456789abcdef"
@@ -91,7 +92,7 @@ def run(rep, tier):
     # argument validation of the five constructors, for ALL integers / every argument kind (VCs; list arguments up to
     # length 2, their contents arbitrary)
     E = "pregex.meta.essentials."
-    vcrun.run_functions(rep, [E + c + ".__init__" for c in ("Numeral", "Word", "WordContains", "WordStartsWith", "WordEndsWith")], tier)
+    vcrun.run_functions(rep, [E + c + ".__init__" for c in ("Numeral", "Word", "WordContains", "WordStartsWith", "WordEndsWith")] + EXC, tier)
     rep.assumptions.append("validation VCs: list arguments (infix / prefix / suffix) are enumerated up to length 2 with arbitrary "
                            "contents; longer lists rest on the per-element loop being uniform")
     rep.trusted += ["R3, R4, R6, R7", "rx2smt translator (cross-checked against CPython each run)",
